@@ -1093,7 +1093,23 @@ def generate(tier, seed):
         n = n_params(t)
         var = [rng.choice([0, 1, 1, 2]) for _ in range(n)]
         cases.append(mk_eq_case(t, var))
-    return cases
+    return _spread(cases)
+
+
+def _spread(cases):
+    """Same cases, large literals (a leaf x the whole value pool) spread evenly between the small ones, so that no
+    single coqc shard is several times larger than the others (peak memory under load)."""
+    big = [c for c in cases if len(c.term) > 2500]
+    small = [c for c in cases if len(c.term) <= 2500]
+    if not big or not small:
+        return cases
+    out, step, j = [], max(1, len(small) // len(big)), 0
+    for i, c in enumerate(small):
+        out.append(c)
+        if (i + 1) % step == 0 and j < len(big):
+            out.append(big[j])
+            j += 1
+    return out + big[j:]
 
 
 TARGETED_EQ = [
